@@ -81,6 +81,9 @@ def judge(x, y, with_scale, gen=None, must_refuse=False, may_refuse=False):
         msgs.append("exactly degenerate input was aligned instead of refused")
         return msgs, info
     _, r, t, c = res
+    if r.shape != (3, 3) or np.asarray(t).reshape(-1).shape != (3, ):
+        return ["result has the wrong shape: r %s, t %s" %
+                (r.shape, np.asarray(t).shape)], info
     # proper rotation
     if r.shape != (3, 3) or np.abs(r.T @ r - np.eye(3)).max() > 1e-9 \
             or abs(np.linalg.det(r) - 1.0) > 1e-9:
